@@ -30,7 +30,7 @@ claim('C15', 'other',
       'pair is never an error; separable consistent pairs pass silently). The UPA decision itself (distinguishable_paths) has no per-function specification other '
       'than the property and is covered by a bounded run-time contract on the real builder: XMLSchema10/11 raises XMLSchemaModelError <=> an independent Glushkov '
       'position-automaton decides the model violates UPA, over exhaustively enumerated scopes of 143 416 models per class (quick: a quarter), plus an EDC family '
-      '(x:T1, y, x:T2 in three nestings, every type pair) and a family of references to substitution-group heads and members. Disagreements of the unchanged tree are listed one by one in baseline/C15_instances.json; any other disagreement is a violation.',
+      '(x:T1, y, x:T2 in three nestings, every type pair), a family of references to substitution-group heads and members, and the independence of the verdict from the place where the type holding the model is declared (six places). Disagreements of the unchanged tree are listed one by one in baseline/C15_instances.json; any other disagreement is a violation.',
       'Trusted: the independent UPA oracle (bounded/cm.py); the element relations are uninterpreted in the pair-body contract. The UPA part is bounded, not proved.',
       'DESIGN.md 5/C15')
 
@@ -48,10 +48,10 @@ claim('C14', 'other',
 claim('C02', 'other',
       'Proved kernel + bounded: the 12 integer range validators are proved to accept exactly the XSD value ranges (all integers), the boolean '
       'codec to decode exactly {true,false,1,0} and to round-trip; the bound, length and digit facet validators (raise exactly outside the facet set), '
-      'XsdAtomicRestriction.raw_decode (validators applied once, patterns here or pushed), first-match union / item-wise list decoding as listed in '
+      'XsdAtomicRestriction.raw_decode (validators applied once, patterns here or pushed) and raw_encode (the patterns are checked once on the text that is written, whatever the value), first-match union / item-wise list decoding as listed in '
       'the evidence. The built-in lexical spaces, whitespace normalisation, count_digits and derived restriction/list/union types are covered by '
       'bounded run-time contracts through the real schema API against reference functions written from XSD Part 2 (boundary catalogue exhaustive, '
-      'seeded mutations), including decode value and decode(encode(decode(t))) = decode(t), and the typed decoding options (decimal_type / datetime_types / binary_types, every combination).',
+      'seeded mutations), including decode value and decode(encode(decode(t))) = decode(t), and the typed decoding options (decimal_type / datetime_types / binary_types, every combination, with the typed round trip); encoding typed values of derived types fails or returns a text of the type.',
       'Trusted: reference lexical functions (bounded/C02.py), elementpath datatypes as a dependency (two of its defects are listed findings), '
       'years beyond 9 digits and BCE leap days outside the deciding scope.',
       'DESIGN.md 5/C02')
@@ -69,6 +69,7 @@ claim('C03', 'other',
 
 claim('C04', 'other',
       'Proved kernel + bounded: ValidationContext.raise_or_collect (strict raises the very error, lax appends, skip neither; never raises in lax), '
+      'get_resource_schema (a given schema instance that knows the root namespace is the schema that is used), '
       'is_valid/validate of components and of schemas over the ghost sequence of iter_errors (verdict = that of the first error, all arguments '
       'forwarded), and the CLI exit status (loop invariant; exit status 0 iff all files valid, for every error count) are proved. Agreement of '
       'all entry points, modes and 10 source kinds, package-level functions included, is a bounded run-time contract on generated faulty documents, '
